@@ -185,7 +185,60 @@ def run(prop="C19", tier="quick"):
                                      "%s does not mpz_clear member %s of %s" % (clr["name"], fld["name"], stype)))
         res["samples"].append(dict(rule="R-RANDCOV", iset=iset["name"], state_struct=stype, fields=[f["name"] for f in rec["fields"]],
                                    fields_written=sorted(written)))
+    lc_schemes(prop, facts, res)
     res["stats"] = dict(res["stats"])
     res["obligations"] = sum(v for v in res["stats"].values())
     res["exhaustive"] = True
     return res
+
+
+def lc_schemes(prop, facts, res):
+    """gmp_randinit_lc_2exp_size picks the first entry of __gmp_rand_lc_scheme with m2exp / 2 >= size: the table must be ascending
+    and zero-terminated, and every entry must be a full-period generator modulo 2^m2exp (Hull-Dobell: c odd, a = 1 mod 4; the file
+    promises a = 5 mod 8 and 0.01 m <= a <= 0.99 m) - otherwise some supported size gets a generator whose low-quality or
+    short-period stream reaches the caller ("for every supported size ... not grossly non-uniform")."""
+    F = res["findings"]
+    gs = {g["name"]: g for g in facts["globals"]}
+    tab = [g for g in facts["globals"] if g["name"].split(".")[0] == "__gmp_rand_lc_scheme" and "init" in g]
+    if len(tab) != 1:
+        raise AnalysisBroken("R-RANDCOV: __gmp_rand_lc_scheme not found in the linked IR")
+    g = tab[0]
+    file = g["loc"].rpartition(":")[0]
+    line = int(g["loc"].rpartition(":")[2] or 0)
+
+    def sval(ref):
+        s_ = gs.get(ref.get("ref")) if isinstance(ref, dict) else None
+        if not s_ or "init" not in s_ or not isinstance(s_["init"], list):
+            return None
+        return bytes(int(x) for x in s_["init"]).split(b"\0")[0].decode("latin1")
+    rows = g["init"]
+    if len(rows) < 10:
+        raise AnalysisBroken("R-RANDCOV: __gmp_rand_lc_scheme has only %d rows" % len(rows))
+    last = rows[-1]
+    if int(last[0]) != 0 or last[1] is not None and last[1] != 0 and not (isinstance(last[1], dict) and "ref" not in last[1]):
+        F.append(Finding(prop, "R-RANDCOV", file, line, "__gmp_rand_lc_scheme", "lc-scheme:unterminated",
+                         "the scheme table does not end with the all-zero entry the selection loop stops at"))
+    prev = 0
+    for i, row in enumerate(rows[:-1]):
+        m, a_s, c = int(row[0]), sval(row[1]), int(row[2])
+        res["stats"]["lc_scheme_entries"] += 1
+        why = None
+        try:
+            a = int(a_s, 16) if a_s else None
+        except ValueError:
+            a = None
+        if a is None:
+            why = "multiplier string %r is not hexadecimal" % a_s
+        elif m <= prev:
+            why = "m2exp %d does not exceed the previous entry's %d: the first-fit selection never reaches it or picks a smaller modulus than promised" % (m, prev)
+        elif c % 2 == 0:
+            why = "addend c = %d is even: the generator modulo 2^%d does not have full period" % (c, m)
+        elif a % 8 != 5:
+            why = "multiplier is %d mod 8, not 5: not a full-period / maximal-potency multiplier modulo 2^%d" % (a % 8, m)
+        elif not (a * 100 >= (1 << m) and a * 100 <= 99 * (1 << m)):
+            why = "multiplier is outside [0.01 m, 0.99 m] for m = 2^%d" % m
+        if why:
+            F.append(Finding(prop, "R-RANDCOV", file, line, "__gmp_rand_lc_scheme", "lc-scheme:%d" % i,
+                             "__gmp_rand_lc_scheme[%d] (m2exp %d): %s" % (i, m, why)))
+        prev = m
+    res["samples"].append(dict(rule="R-RANDCOV.lcscheme", entries=len(rows) - 1, largest_m2exp=prev))
